@@ -8,7 +8,6 @@ import (
 	"context"
 	"errors"
 	"fmt"
-	"math"
 	"strconv"
 	"strings"
 
@@ -124,6 +123,10 @@ func waOp(t []string) (ans string) {
 		if r := recover(); r != nil {
 			if s, ok := r.(string); ok && (strings.HasPrefix(s, "bad ") || strings.HasPrefix(s, "empty value") || strings.HasPrefix(s, "shape")) {
 				ans = "bad-op"
+				return
+			}
+			if strings.HasPrefix(fmt.Sprint(r), "unsupported for aggregate") {
+				ans = "err:panic" // newWindowMin/MaxArrayCursor on a string/boolean cursor
 				return
 			}
 			panic(r)
@@ -279,17 +282,188 @@ func op(t []string) string {
 	return "bad-op"
 }
 
-func gen(r *h.Rand, tier string, emit func([]string)) {
-	_ = math.MaxInt64
-	emit([]string{"wa count f 10 0 0 40 0 - 0 2,1 3,15,27 f3ff0000000000000,f4000000000000000,f4008000000000000",
-		"wa count f 10 0 0 40 1 - 0 2,1 3,15,27 f3ff0000000000000,f4000000000000000,f4008000000000000",
-		"wa first f 10 0 0 40 1 - 0 2,1 3,15,27 f3ff0000000000000,f4000000000000000,f4008000000000000",
-		"wa first f 10 0 0 40 0 - 0 2,1 3,15,27 f3ff0000000000000,f4000000000000000,f4008000000000000",
-		"wa mean i 10 3 5 38 1 stop 0 2,1 3,15,27 i1,i2,i3",
-		"wa min i 10 3 5 38 0 start 0 2,1 3,15,27 i1,i2,i3",
-		"wa first f 10 0 0 40 0 - 1 2,1 3,15,27 f3ff0000000000000,f4000000000000000,f4008000000000000",
-	})
-	fmt.Sprint()
+var aggs = []string{"count", "sum", "min", "max", "mean", "first", "last"}
+
+func genVal(r *h.Rand, typ byte) string {
+	switch typ {
+	case 'f':
+		return rmock.FloatTok(float64(r.Range(-40, 40)) / 4)
+	case 'i':
+		return rmock.IntTok(r.Range(-9, 9))
+	case 'u':
+		return rmock.UintTok(uint64(r.Range(0, 12)))
+	case 's':
+		return rmock.StrTok(h.Pick(r, []string{"", "a", "b", "zz"}))
+	default:
+		return rmock.BoolTok(r.Bool())
+	}
 }
 
-func main() { h.Main(h.Harness{Gen: gen, NewCase: h.Stateless(op), OpTimeout: 0}) }
+func composition(r *h.Rand, n int, maxPart int) []int64 {
+	var out []int64
+	for n > 0 {
+		k := 1 + r.Intn(maxPart)
+		if k > n {
+			k = n
+		}
+		out = append(out, int64(k))
+		n -= k
+	}
+	return out
+}
+
+func shapeOf(r *h.Rand, parts []int64) string {
+	var shards []string
+	var cur []int64
+	for _, p := range parts {
+		if r.Chance(0.2) {
+			if len(cur) > 0 {
+				shards = append(shards, h.Ints(cur))
+				cur = nil
+			}
+			if r.Chance(0.25) {
+				shards = append(shards, h.Pick(r, []string{"-", "0"}))
+			}
+		}
+		cur = append(cur, p)
+	}
+	if len(cur) > 0 || len(shards) == 0 {
+		shards = append(shards, h.Ints(cur))
+	}
+	return strings.Join(shards, "/")
+}
+
+func typFor(r *h.Rand, agg string) byte {
+	if (agg == "count" || agg == "first" || agg == "last") && r.Chance(0.2) {
+		return h.Pick(r, []byte{'s', 'b'})
+	}
+	if r.Chance(0.03) {
+		return h.Pick(r, []byte{'s', 'b'}) // unsupported combinations
+	}
+	return h.Pick(r, []byte{'f', 'i', 'u'})
+}
+
+func line(agg string, typ byte, every, offset, bs, be int64, ce bool, tc string, force bool, shape string, ts []int64, vals []string) string {
+	return fmt.Sprintf("wa %s %c %d %d %d %d %s %s %s %s %s %s", agg, typ, every, offset, bs, be, h.B(ce), tc, h.B(force), shape, h.Ints(ts), h.Join(vals))
+}
+
+func pickOffset(r *h.Rand, e int64) int64 {
+	return h.Pick(r, []int64{0, 0, 1, -1, 3, e - 1, e, e + 1, -e - 1, 2*e + 1, -7, 1 << 40, -(1 << 40)})
+}
+
+func small(r *h.Rand, agg string) string {
+	typ := typFor(r, agg)
+	every := h.Pick(r, []int64{1, 2, 3, 4, 5, 7, 10, 16, 60})
+	if r.Chance(0.03) {
+		every = h.Pick(r, []int64{0, -5})
+	}
+	e := every
+	if e <= 0 {
+		e = 5
+	}
+	offset := pickOffset(r, e)
+	n := r.Intn(13)
+	t := r.Range(-40, 40)
+	if r.Chance(0.1) {
+		t = h.Pick(r, []int64{1 << 58, -(1 << 58), 1_600_000_000_000_000_000})
+	}
+	base := t
+	ts := make([]int64, n)
+	vals := make([]string, n)
+	maxGap := 1 + r.Range(0, 2*e)
+	for i := 0; i < n; i++ {
+		t += r.Range(1, maxGap)
+		ts[i] = t
+		vals[i] = genVal(r, typ)
+	}
+	// bounds: around, inside, on window edges, on points
+	var bs, be int64
+	switch r.Intn(5) {
+	case 0:
+		bs, be = base-r.Range(0, 3*e), t+1+r.Range(0, 3*e)
+	case 1:
+		bs, be = base+r.Range(0, 2*e), t-r.Range(0, 2*e)
+	case 2: // window-aligned
+		bs = offset + e*((base-offset)/e-r.Range(0, 2))
+		be = offset + e*((t-offset)/e+1+r.Range(0, 2))
+	case 3:
+		bs, be = base+1, t
+	default:
+		bs, be = base-r.Range(0, e), t+r.Range(0, e)
+	}
+	if n > 0 && r.Chance(0.3) {
+		bs = ts[r.Intn(n)]
+	}
+	if n > 0 && r.Chance(0.3) {
+		be = ts[r.Intn(n)] + r.Range(0, 1)
+	}
+	if be <= bs {
+		be = bs + 1 + r.Range(0, 2*e)
+	}
+	if (be-bs)/e > 400 {
+		be = bs + 400*e
+	}
+	tc := h.Pick(r, []string{"-", "-", "start", "stop"})
+	return line(agg, typ, every, offset, bs, be, r.Chance(0.5), tc, r.Chance(0.25), shapeOf(r, composition(r, n, 1+r.Intn(5))), ts, vals)
+}
+
+// big: more than MaxPointsPerBlock windows and/or rows
+func big(r *h.Rand, agg string, dense bool) string {
+	typ := h.Pick(r, []byte{'f', 'i', 'u'})
+	every := h.Pick(r, []int64{1, 2, 5})
+	offset := pickOffset(r, every)
+	windows := int(h.Pick(r, []int64{1000, 1001, 1300, 2001, 2300}))
+	t := r.Range(-50, 50)
+	t -= ((t-offset)%every + every) % every
+	bs := t - r.Range(0, every-1)
+	var ts []int64
+	var vals []string
+	for w := 0; w < windows; w++ {
+		p := 0.01
+		if dense {
+			p = 0.9
+		}
+		if r.Chance(p) || (!dense && w == 3) {
+			ts = append(ts, t+r.Range(0, every-1))
+			vals = append(vals, genVal(r, typ))
+			if every > 1 && r.Chance(0.3) && ts[len(ts)-1] < t+every-1 {
+				ts = append(ts, ts[len(ts)-1]+1)
+				vals = append(vals, genVal(r, typ))
+			}
+		}
+		t += every
+	}
+	be := t - r.Range(0, every-1)
+	tc := h.Pick(r, []string{"-", "start", "stop"})
+	return line(agg, typ, every, offset, bs, be, r.Chance(0.7), tc, r.Chance(0.25), shapeOf(r, composition(r, len(ts), 1200)), ts, vals)
+}
+
+func gen(r *h.Rand, tier string, emit func([]string)) {
+	nSmall, nBig := 160, 1
+	if tier == "thorough" {
+		nSmall, nBig = 2000, 6
+	}
+	for _, agg := range aggs {
+		var ops []string
+		for i := 0; i < nSmall; i++ {
+			ops = append(ops, small(r, agg))
+			if len(ops) == 20 {
+				emit(ops)
+				ops = nil
+			}
+		}
+		if len(ops) > 0 {
+			emit(ops)
+		}
+	}
+	for _, agg := range aggs {
+		for i := 0; i < nBig; i++ {
+			emit([]string{big(r, agg, false)})
+			emit([]string{big(r, agg, true)})
+		}
+	}
+	emit([]string{"wa count f 1 0 0 10 0 - 0 1 1", "wa nope f 1 0 0 10 0 - 0 1 1 f0000000000000000", "frob",
+		"wa count f 1 0 0 10 2 - 0 1 1 f0000000000000000", "wa count f 1 0 0 10 0 time 0 1 1 f0000000000000000"})
+}
+
+func main() { h.Main(h.Harness{Gen: gen, NewCase: h.Stateless(op)}) }
